@@ -559,7 +559,13 @@ func (m *Machine) When(states S, ctx context.Context) <-chan struct{} {
 	m.activeStatesMx.Lock()
 	defer m.activeStatesMx.Unlock()
 
-	return m.subs.When(m.mustParseStates(states), ctx)
+	parsed := m.mustParseStates(states)
+	if len(parsed) == 0 {
+		// disposing (or nothing to wait for)
+		return m.subs.Closed
+	}
+
+	return m.subs.When(parsed, ctx)
 }
 
 // When1 is an alias to When() for a single state.
@@ -583,7 +589,13 @@ func (m *Machine) WhenNot(states S, ctx context.Context) <-chan struct{} {
 	m.activeStatesMx.Lock()
 	defer m.activeStatesMx.Unlock()
 
-	return m.subs.WhenNot(m.mustParseStates(states), ctx)
+	parsed := m.mustParseStates(states)
+	if len(parsed) == 0 {
+		// disposing (or nothing to wait for)
+		return m.subs.Closed
+	}
+
+	return m.subs.WhenNot(parsed, ctx)
 }
 
 // WhenNot1 is an alias to WhenNot() for a single state.
@@ -729,6 +741,10 @@ func (m *Machine) WhenArgs(
 	defer m.activeStatesMx.Unlock()
 
 	states := m.mustParseStates(S{state})
+	if len(states) == 0 {
+		// disposing
+		return m.subs.Closed
+	}
 
 	return m.subs.WhenArgs(states[0], args, ctx)
 }
